@@ -882,8 +882,8 @@ def opRDC (args obs : List String) : P String := do
     pure (functional [showSigned x.signed, toString x.nword, toString x.nfrac, showList toString (clipL lo hi cs)] obs)
   | _ => throw "RDC: arity"
 
-/-- `RDM <r1> <c1> <fx> <r2> <c2> <fy> [a] [b] | shape [values]` — `np.matmul` (not dispatched to a fixed-point
-kernel: computed on values and wrapped); only the values are demanded. -/
+/-- `RDM <r1> <c1> <fx> <r2> <c2> <fy> [a] [b] | s n f shape [codes] ov un` — `np.matmul` / `x @ y` of two 2-D operands:
+sized like `dot` (every entry is a dot product of a row and a column, `Props/C15.matmul_fits`), exact codes, no flag. -/
 def opRDM (args obs : List String) : P String := do
   match args with
   | [r1, c1, sx, nx, fx, _r2, c2, sy, ny, fy, as, bs] =>
@@ -895,8 +895,10 @@ def opRDM (args obs : List String) : P String := do
     let as ← pList pInt as
     let bs ← pList pInt bs
     let ks := (matmulL (toRows c1 as) (toRows c2 bs)).flatten
-    let vals := ks.map (fun (k : Int) => scale (k : Rat) (-(x.nfrac + y.nfrac)))
-    pure (functional [showShape [r1, c2], showList showRat vals] obs)
+    let g := dotFmt x y c1
+    let out := ks.map (ovf .saturate g)
+    pure (functional [showSigned g.signed, toString g.nword, toString g.nfrac, showShape [r1, c2], showList toString out,
+                      showBool (ks.any (fun k => decide (g.hi < k))), showBool (ks.any (fun k => decide (k < g.lo)))] obs)
   | _ => throw "RDM: arity"
 
 def pStep (tok : String) : P Step := do
